@@ -164,9 +164,11 @@ def predict_set(tree: TNode, segs: list[str], value_tokens) -> Prediction:
     if existing.kind == "leaf":
         cur.children[last] = _value_node(value_tokens)
         return Prediction("either" if mixed else "ok", t, shape=shape)
-    if shape == "mixed":
-        return Prediction("either", None, shape=shape)
     cur.children[last] = _value_node(value_tokens)
+    if shape == "mixed":
+        # the root is also an attrpath root: overwriting it is the documented refusal; `t` is
+        # what a permissive edit would have to give (every definition of the root replaced)
+        return Prediction("ValueError", t, shape=shape, reason="overwrite of an attrpath root")
     if shape == "attrpath-set":
         # refusal expected (attrpath-root overwrite); `t` is what a permissive edit would give
         return Prediction("ValueError", t, shape=shape, reason="overwrite of an attrpath root")
